@@ -98,6 +98,7 @@ def group_level(R, base, names, prefix, labels, kinds=('$', '><'), p_share=0.0, 
         return None
     # fragment-less (virtual) nodes and order-0 edges inside the fragments of this level
     nvirtual = 0
+    orig = {cp: v for (v, _F), cp in copies.items()}
     for g in range(k):
         if R.chance(p_virtual):
             v = 200000 + nvirtual
@@ -107,7 +108,9 @@ def group_level(R, base, names, prefix, labels, kinds=('$', '><'), p_share=0.0, 
             subs[g].add_edge(v, R.choice(sorted(n for n in subs[g].nodes if n < 100000)), order=0)
         elif R.chance(p_virtual) and len(subs[g]) >= 3:
             a, b = R.sample(sorted(n for n in subs[g].nodes), 2)
-            if not subs[g].has_edge(a, b):
+            # (two copies of shared nodes may be bonded through their originals in another group:
+            # an order-0 edge between the copies would contradict that bond after the merge)
+            if not subs[g].has_edge(a, b) and not base.has_edge(orig.get(a, a), orig.get(b, b)):
                 subs[g].add_edge(a, b, order=0)
     upnames = {g: '%s%d' % (prefix, g) for g in range(k)}
     # a fragment name may be reused on another level: some groups take the name of one of their members
